@@ -23,6 +23,7 @@ type Env struct {
 	depth int
 	unfold int  // recursive-function unfoldings on this path
 	noUnfold bool
+	fvs  map[string]VPtr // captured variables of a closure callee: names denote the cell contents in e.st
 }
 
 func (e *Env) with(vars map[string]Val) *Env {
@@ -108,7 +109,13 @@ func (e *Env) lookup(name string) (Val, bool) {
 		return v, true
 	}
 	c := e.c
+	if p, ok := e.fvs[name]; ok {
+		return c.loadQuiet(e.st, p), true
+	}
 	if e.fn == c.fn {
+		if p, ok := c.fvs[name]; ok {
+			return c.loadQuiet(e.st, p), true
+		}
 		if t, ok := e.st.ghostInts[name]; ok {
 			return VInt{t}, true
 		}
@@ -506,6 +513,24 @@ func (e *Env) valEq(a, b Val, x Expr) string {
 
 func (e *Env) call(x ECall) Val {
 	c := e.c
+	if d := c.eng.cs.DetNames[x.Fn]; d != nil {
+		var leaves, sorts []string
+		for _, a := range x.Args {
+			v := e.eval(a)
+			leaves = append(leaves, flatten(v)...)
+			sorts = append(sorts, leafSorts(v)...)
+		}
+		r := c.eng.detApp(d, leaves, sorts)
+		switch d.Kind {
+		case "string":
+			return VStr{r[0], r[1], r[2]}
+		case "iface":
+			return VIface{r[0], r[1]}
+		case "bool":
+			return VBool{r[0]}
+		}
+		return VInt{r[0]}
+	}
 	switch x.Fn {
 	case "len":
 		v := e.eval(x.Args[0])
@@ -520,6 +545,9 @@ func (e *Env) call(x ECall) Val {
 			}
 		}
 		sfail("len of %T in %s: %+v", v, x, v)
+	case "maplen": // number of entries of a map (a function of the map and the map heap)
+		m := e.evalInt(x.Args[0])
+		return VInt{sel(c.heapGet(e.st, "M$len", arrSort(sInt)), m)}
 	case "cap":
 		v := e.eval(x.Args[0])
 		if s, ok := v.(VSlice); ok {
